@@ -272,7 +272,8 @@ class Stream(APIRegisterMixin):
         else:
             for upstream in self.upstreams:
                 if upstream and upstream.loop:
-                    self.loop = upstream.loop
+                    # percolate: the other upstreams join this loop, or conflict
+                    self._inform_loop(upstream.loop)
                     break
 
     def _inform_loop(self, loop):
@@ -297,8 +298,8 @@ class Stream(APIRegisterMixin):
             self._inform_asynchronous(asynchronous)
         else:
             for upstream in self.upstreams:
-                if upstream and upstream.asynchronous:
-                    self.asynchronous = upstream.asynchronous
+                if upstream and upstream.asynchronous is not None:
+                    self._inform_asynchronous(upstream.asynchronous)
                     break
 
     def _inform_asynchronous(self, asynchronous):
